@@ -154,3 +154,27 @@ Theorem C07_interrupt_retps_transparent_I_block :
       /\ (forall a, RAMB <= a -> (a < S \/ S + 4 <= a) -> (a < P \/ P + 12 <= a) -> ramb m2 a = ramb m a).
 Proof. exact interrupt_retps_transparent_I. Qed.
 Print Assumptions C07_interrupt_retps_transparent_I_block.
+
+(* CALLPS followed by RETPS: the caller continues after the CALLPS with everything else as it was *)
+Theorem C07_callps_retps_transparent :
+  forall irc irr m,
+    iopcode irc = 12460 -> iopcode irr = 12488 -> is_kernel m = true ->
+    bus_wf (mbus m) ->
+    let N := R m 0 in
+    let P := R m R_PCBP in
+    let S := R m R_ISP in
+    in_ram_w N -> in_ram_w (N + 4) -> in_ram_w (N + 8) ->
+    in_ram_w P -> in_ram_w (P + 4) -> in_ram_w (P + 8) -> in_ram_w S -> S + 4 < 4294967296 ->
+    (P + 12 <= N \/ N + 12 <= P) -> (S + 4 <= P \/ P + 12 <= S) -> (S + 4 <= N \/ N + 12 <= S) ->
+    let H := ldw m N in
+    0 <= H -> Z.testbit H 8 = false -> Z.testbit H 7 = false -> Z.testbit H 11 = false -> Z.testbit H 12 = false ->
+    Z.testbit (PSW m) 7 = false ->
+    0 <= R m R_SP < 4294967296 ->
+    exists m1 m2,
+      exec irc m = Ok 0 m1 /\ exec irr m1 = Ok 0 m2
+      /\ R m2 R_PC = add32 (R m R_PC) 2 /\ R m2 R_SP = R m R_SP /\ R m2 R_PCBP = P /\ R m2 R_ISP = S
+      /\ (forall i, 0 <= i <= 10 -> R m2 i = R m i)
+      /\ (forall k, In k [21; 20; 19; 18; 16; 15; 14; 13; 12; 11; 10; 9; 7] -> Z.testbit (PSW m2) k = Z.testbit (PSW m) k)
+      /\ (forall a, RAMB <= a -> (a < S \/ S + 4 <= a) -> (a < P \/ P + 12 <= a) -> ramb m2 a = ramb m a).
+Proof. exact callps_retps_transparent. Qed.
+Print Assumptions C07_callps_retps_transparent.
